@@ -671,6 +671,22 @@ func c19Values(c *vh.Case) {
 		rt{"sampling/createMessage:result", sres, func() any { return new(mcp.CreateMessageWithToolsResult) }},
 		rt{"sampling/createMessage:params", &mcp.CreateMessageWithToolsParams{MaxTokens: 5, Messages: smsgs}, func() any { return new(mcp.CreateMessageWithToolsParams) }},
 	)
+	// results of multi-round-trip requests: no input requests (nil), the load-shedding signal (an empty, non-nil map:
+	// "needs input, names none"), or one request
+	irs := func() mcp.InputRequestMap {
+		switch r.Intn(3) {
+		case 0:
+			return nil
+		case 1:
+			return mcp.InputRequestMap{}
+		}
+		return mcp.InputRequestMap{"roots": &mcp.ListRootsParams{}}
+	}
+	cands = append(cands,
+		rt{"tools/call", &mcp.CallToolResult{Content: contents, InputRequests: irs()}, func() any { return new(mcp.CallToolResult) }},
+		rt{"resources/read", &mcp.ReadResourceResult{InputRequests: irs()}, func() any { return new(mcp.ReadResourceResult) }},
+		rt{"prompts/get", &mcp.GetPromptResult{InputRequests: irs()}, func() any { return new(mcp.GetPromptResult) }},
+	)
 	k := cands[r.Intn(len(cands))]
 	enc, err := json.Marshal(k.v)
 	if err != nil {
@@ -744,6 +760,18 @@ func c19Values(c *vh.Case) {
 	if err != nil || !jsonEqual(nn(enc), nn(enc2)) {
 		c.Violate("value-roundtrip-altered", "%s: decode(encode(x)) re-encodes differently (%v):\n1: %s\n2: %s", k.method, err, enc, enc2)
 		return
+	}
+	// ... likewise a map member that is present though empty (inputRequests: {} is a signal of its own, not "none")
+	if av, bv := reflect.ValueOf(k.v).Elem(), reflect.ValueOf(back).Elem(); av.Kind() == reflect.Struct {
+		for i := 0; i < av.NumField(); i++ {
+			if f := av.Type().Field(i); f.IsExported() && f.Type.Kind() == reflect.Map && f.Name == "InputRequests" {
+				if av.Field(i).IsNil() != bv.Field(i).IsNil() || av.Field(i).Len() != bv.Field(i).Len() {
+					c.Violate("value-roundtrip-altered", "%s: %s held %d entries (nil: %v) and holds %d (nil: %v) after decode(encode(x)); encoding %s", k.method, f.Name, av.Field(i).Len(), av.Field(i).IsNil(), bv.Field(i).Len(), bv.Field(i).IsNil(), enc)
+					return
+				}
+				c.Seen("input_requests_shapes", fmt.Sprintf("%s nil=%v len=%d", k.method, av.Field(i).IsNil(), av.Field(i).Len()))
+			}
+		}
 	}
 	// What the encoder itself drops never shows in a comparison of two encodings: an optional scalar that is
 	// present (a non-nil pointer, e.g. a size of 0) must be present and equal in the decoded value too.
